@@ -68,12 +68,23 @@ func (m *Request) Marshal() (b []byte, err error) {
 
 // Unmarshal a byte slice into a Reply.
 func (m *Reply) Unmarshal(b []byte) error {
+	// RFC 3244 section 2: message length, protocol version number and AP-REP length, two octets each.
+	if len(b) < 6 {
+		return fmt.Errorf("kadmin reply is %d bytes, shorter than its 6 byte header", len(b))
+	}
 	m.MessageLength = int(binary.BigEndian.Uint16(b[0:2]))
 	m.Version = int(binary.BigEndian.Uint16(b[2:4]))
 	if m.Version != 1 {
 		return fmt.Errorf("kadmin reply has incorrect protocol version number: %d", m.Version)
 	}
 	m.APREPLength = int(binary.BigEndian.Uint16(b[4:6]))
+	// The lengths are the peer's claims: they must describe bytes that were received.
+	if m.MessageLength < 6 || m.MessageLength > len(b) {
+		return fmt.Errorf("kadmin reply declares a message length of %d but %d bytes were received", m.MessageLength, len(b))
+	}
+	if 6+m.APREPLength > m.MessageLength {
+		return fmt.Errorf("kadmin reply declares an AP-REP length of %d in a message of %d bytes", m.APREPLength, m.MessageLength)
+	}
 	if m.APREPLength != 0 {
 		err := m.APREP.Unmarshal(b[6 : 6+m.APREPLength])
 		if err != nil {
@@ -86,12 +97,17 @@ func (m *Reply) Unmarshal(b []byte) error {
 	} else {
 		m.IsKRBError = true
 		m.KRBError.Unmarshal(b[6:m.MessageLength])
-		m.ResultCode, m.Result = parseResponse(m.KRBError.EData)
+		// The e-data of the KRB-ERROR is optional: without it there is no result code or text to report.
+		m.ResultCode, m.Result, _ = parseResponse(m.KRBError.EData)
 	}
 	return nil
 }
 
-func parseResponse(b []byte) (c uint16, s string) {
+func parseResponse(b []byte) (c uint16, s string, err error) {
+	if len(b) < 2 {
+		err = fmt.Errorf("kadmin reply result is %d bytes, shorter than its 2 byte result code", len(b))
+		return
+	}
 	c = binary.BigEndian.Uint16(b[0:2])
 	buf := bytes.NewBuffer(b[2:])
 	m := make([]byte, len(b)-2)
@@ -109,6 +125,6 @@ func (m *Reply) Decrypt(key types.EncryptionKey) error {
 	if err != nil {
 		return err
 	}
-	m.ResultCode, m.Result = parseResponse(m.KRBPriv.DecryptedEncPart.UserData)
-	return nil
+	m.ResultCode, m.Result, err = parseResponse(m.KRBPriv.DecryptedEncPart.UserData)
+	return err
 }
